@@ -215,7 +215,34 @@ where
         if let TyKind::Adt(adt_id, _) = ty {
             self.record(*adt_id);
         }
-        self.ws.db().impl_provided_for(auto_trait_id, ty)
+        let provided = self.ws.db().impl_provided_for(auto_trait_id, ty);
+        if provided {
+            // Some impl of the auto trait suppresses the automatic impl for
+            // `ty`. The database does not say which one (it need not unify
+            // with `ty`), so record every impl of the trait.
+            let interner = self.interner();
+            let any_self_ty = chalk_ir::GenericArgData::Ty(
+                TyKind::BoundVar(chalk_ir::BoundVar::new(
+                    chalk_ir::DebruijnIndex::INNERMOST,
+                    0,
+                ))
+                .intern(interner),
+            )
+            .intern(interner);
+            let binders = CanonicalVarKinds::from_iter(
+                interner,
+                Some(chalk_ir::WithKind::new(
+                    chalk_ir::VariableKind::Ty(chalk_ir::TyVariableKind::General),
+                    chalk_ir::UniverseIndex::ROOT,
+                )),
+            );
+            let impl_ids = self
+                .ws
+                .db()
+                .impls_for_trait(auto_trait_id, &[any_self_ty], &binders);
+            self.record_all(impl_ids);
+        }
+        provided
     }
 
     fn well_known_trait_id(
